@@ -193,17 +193,22 @@ def run(call: GeneratorCall) -> Module:
             the_cache.pending.discard(call)
         raise
 
+    # A generator may hand on the Module generated by another generator call.
+    # Such Modules have been named already, and keep their name.
+    handed_on = m._generated_by is not None
+
     # Give the result a reference back to the generating `Call`
     m._generated_by = call
 
-    # Module naming
-    # If the Module that comes back is anonymous, start by giving it a name equal to the Generator's
-    if m.name is None:
-        m.name = call.gen.name
+    if not handed_on:
+        # Module naming
+        # If the Module that comes back is anonymous, start by giving it a name equal to the Generator's
+        if m.name is None:
+            m.name = call.gen.name
 
-    # If it has a nonzero number of parameters, add a unique suffix per its parameter-values
-    if hasparams(call.gen.Params):
-        m.name += "(" + _unique_name(call.params) + ")"
+        # If it has a nonzero number of parameters, add a unique suffix per its parameter-values
+        if hasparams(call.gen.Params):
+            m.name += "(" + _unique_name(call.params) + ")"
 
     # Store the result in our cache, and on the Call.
     the_cache.stack.pop()
